@@ -132,6 +132,13 @@ pub fn run(outdir: &str, seed: u64, thorough: bool) -> serde_json::Value {
             if let Some(sg) = t.sigma {
                 let good = eds.iter().any(|(e, d)| { let want = ((2.0 * (1.25 / d).ln()).sqrt() / e) * (p.max_privacy_unit_groups as f64).sqrt(); (sg - want).abs() <= 1e-9 * want.abs() || sg >= want });
                 if !good { st.violation(json!({"kind":"thresholding-noise-below-recorded-budget","query":sql,"sigma":sg,"recorded":eds,"cu":p.max_privacy_unit_groups})); }
+                // ... and the threshold must keep the release probability of a single unit's key within the recorded delta:
+                // tau >= 1 + sigma * quantile((1 - delta)^(1/Cu)) for some recorded (epsilon, delta)
+                let cu = p.max_privacy_unit_groups as f64;
+                let tau_ok = eds.iter().any(|(_, d)| { let q = crate::dp::inv_norm((1.0 - d).powf(1.0 / cu)).max(0.0); t.tau >= 1.0 + sg * q - 1e-6 * (1.0 + sg * q).abs() });
+                if !tau_ok && !eds.is_empty() && sg.is_finite() && sg > 0.0 {
+                    st.violation(json!({"kind":"threshold-releases-above-recorded-delta","query":sql,"tau":t.tau,"sigma":sg,"recorded":eds,"cu":p.max_privacy_unit_groups}));
+                }
             }
         }
         st.bump(if nested { "nested_dp_subquery" } else { "single_dp_reduce" });
